@@ -140,6 +140,15 @@ def gen_cases(rng, tier, count=None):
             c = TW.safe_case(rng, la, tier, n_choices=[300, 500, 1000], fams=["noisy", "unit", "drift", "cl_sine", "cl_garland"])
             c["np_seed"] = int(c["np_seed"]) // 3 * 3
             c["kind"] = "repro"
+        if c.get("kind") == "repro" and rng.random() < 0.12:
+            # a side written [hi, lo] (the repository's own partition tests pass [-5, -10]): midpoints, widths and
+            # uniform draws are symmetric in the two end points, the unchanged code runs the loop on such a box like
+            # on any other - and must hand it back as it was
+            j = int(rng.integers(len(c["box"])))
+            c["box"] = [list(iv) for iv in c["box"]]
+            c["box"][j] = [c["box"][j][1], c["box"][j][0]]
+            c["reversed_side"] = True
+            c.pop("alias_box", None)
         if rng.random() < 0.5:
             # the arity of a K-ary partition is bound with functools.partial on the library's own class instead of a
             # subclass per K: the instances of one run (and of the two interleaved runs) then share one class object
